@@ -70,7 +70,21 @@ def msgs_runs(tier, seed):
            [{"profile": "collateral", "args": ["collateral", "-seed", str(seed * 100 + 50 + k), "-hist", "4", "-steps", "500"]} for k in range(4)]
 
 
+def det_runs(tier, seed):
+    if tier == "quick":
+        return [{"profile": "det", "args": ["det", "-seed", str(seed * 10 + k), "-hist", "1", "-steps", "700"]} for k in range(2)]
+    return [{"profile": "det", "args": ["det", "-seed", str(seed * 100 + k), "-hist", "2", "-steps", "1500"]} for k in range(16)]
+
+
 PROPS = {
+    "C06": {
+        "runs": det_runs, "replay_runs": replay_runs, "monitor": (lambda rec: []), "model": False, "facts": facts.gen_nondet_facts,
+        "replicas": [{"GOMAXPROCS": "1"}, {"GOMAXPROCS": "16", "GOGC": "20"}],
+        "diff_relevant": lambda d: False,
+        "trusted_base": BASE_TRUST + ["the nondeterminism-site scanner (verif/scan, go/types based: range over map-typed expressions, time.Now/Since, rand packages, go, select) over x/*, wasmbinding, types",
+                                      "the two/three-process replay uses real signed transactions through DeliverTx and compares code, gas, ordered events and AppHash"],
+        "assumptions": ["partial by nature: the theorems cover the modelled drain site and the reviewed allow-list; scheduler- or SDK-internal nondeterminism can only be exhibited by the multi-process replay, not excluded"],
+    },
     "C11": {
         "runs": msgs_runs, "replay_runs": replay_runs, "monitor": mon_msgs.c11, "facts": facts.gen_msg_facts,
         "diff_relevant": lambda d: d["mod"] in ("msgtable", "oracle", "wasm") or
